@@ -4,22 +4,25 @@ set_option linter.unusedVariables false
 namespace UrcuVerif.Wfs
 open Lifo
 
-/-- the thread a label belongs to -/
-def Label.tid : Label → Nat
-  | .pushBegin t _ | .pushX t | .pushSt t | .flush t | .lock t | .unlock t | .empty t
-  | .popBegin t _ | .popLd t | .popSync t | .popCas t | .popAll t | .iterNext t _ => t
+/-- the thread a label belongs to (`none`: environment steps of the abstract grace period) -/
+def Label.tid : Label → Option Nat
+  | .pushBegin t _ | .pushX t | .pushSt t | .flush t | .lock t | .unlock t | .rlock t | .runlock t
+  | .empty t | .popBegin t _ | .popLd t | .popSync t | .popCas t | .popAll t | .iterNext t _ => some t
+  | .gpStart | .gpEnd | .reclaim _ => none
 
 /-- a step of another thread (including the flushing of another thread's store buffer) does not
 touch this thread's pc, store buffer, return value, iterator -/
 theorem step_frame (c : Cfg) {s s' : State} {l : Label} (st : step c s l = some s') (t : Nat)
-    (ht : l.tid ≠ t) :
+    (ht : l.tid ≠ some t) :
     s'.pc t = s.pc t ∧ s'.buf t = s.buf t ∧ s'.ret t = s.ret t ∧ s'.cur t = s.cur t ∧
     s'.priv t = s.priv t := by
-  cases l <;> simp only [Label.tid] at ht <;> simp only [step] at st <;>
+  cases l <;> simp only [Label.tid, ne_eq, Option.some.injEq, not_false_eq_true] at ht <;>
+    simp only [step] at st <;>
     (repeat' split at st) <;>
     first
     | (simp at st; done)
     | (simp only [Option.some.injEq] at st; subst st; simp [upd, Ne.symm ht])
+    | (simp only [Option.some.injEq] at st; subst st; simp [upd])
 
 /-- every step is a stutter of the abstract stack or records exactly one linearisation event -/
 theorem step_hist (c : Cfg) {s s' : State} {l : Label} (st : step c s l = some s') :
@@ -32,32 +35,32 @@ theorem step_hist (c : Cfg) {s s' : State} {l : Label} (st : step c s l = some s
 
 /-- **refinement step**: a step of the concurrent model is a stutter or the sequential LIFO
 operation of the recorded linearisation event, with the recorded (concrete) result -/
-theorem step_refines (c : Cfg) {s s' : State} {l : Label} (h : Reach c s)
+theorem step_refines (c : Cfg) (wf : c.WF) {s s' : State} {l : Label} (h : Reach c s)
     (st : step c s l = some s') :
     (s'.hist = s.hist ∧ s'.abs = s.abs) ∨
     ∃ e, s'.hist = e :: s.hist ∧ e.res = (apply s.abs e.op).2 ∧ s'.abs = (apply s.abs e.op).1 := by
   rcases step_hist c st with h1 | ⟨e, he⟩
   · exact Or.inl h1
   · right
-    have v := (inv_reach c h).hist
-    have v' := (inv_reach c (Reach.step h st)).hist
+    have v := (inv_reach c wf h).hist
+    have v' := (inv_reach c wf (Reach.step h st)).hist
     rw [he] at v'
     exact ⟨e, he, v.inv_cons v'⟩
 
-theorem head_end_iff_nil (c : Cfg) {s : State} (h : Reach c s) : s.head = END ↔ s.abs = [] :=
-  chain_nil_iff (inv_reach c h).chain
+theorem head_end_iff_nil (c : Cfg) (wf : c.WF) {s : State} (h : Reach c s) : s.head = END ↔ s.abs = [] :=
+  chain_nil_iff (inv_reach c wf h).chain
 
 
-/-- **no ABA** (mutex / single consumer): when the popper's cmpxchg is about to succeed
-(`head` is the node it loaded), the `next` value it read earlier is still the node's successor:
-the abstract stack is `h :: l` and `nx` heads exactly `l`. -/
-theorem no_aba (c : Cfg) {s : State} (h : Reach c s) (t : Nat) (b : Bool) (h0 nx : Nat)
+/-- **no ABA** (mutex / single consumer / concurrent poppers under RCU): when the popper's cmpxchg
+is about to succeed (`head` is the node it loaded), the `next` value it read earlier is still the
+node's successor: the abstract stack is `h :: l` and `nx` heads exactly `l`.  (RCU: the node
+cannot have been recycled since the popper loaded it, `Inv.popR3` / `Prot`.) -/
+theorem no_aba (c : Cfg) (wf : c.WF) {s : State} (h : Reach c s) (t : Nat) (b : Bool) (h0 nx : Nat)
     (hp : s.pc t = .popCas b h0 nx) (hb : s.buf t = []) (hhd : s.head = h0) :
     ∃ l, s.abs = h0 :: l ∧ Chain s nx l := by
-  have I := inv_reach c h
+  have I := inv_reach c wf h
   have hR := I.popR3 t b h0 nx hp
-  have hne : s.head ≠ END := by
-    intro e; have := (chain_nil_iff I.chain).1 e; rw [this] at hR; simp at hR
+  have hne : s.head ≠ END := by rw [hhd]; exact hR.2.1.1.2
   obtain ⟨b1, r, e1, hn1, hl1, hc1⟩ := chain_cons_inv I.chain hne
   have hnx : s.next h0 = nx := by
     rcases hR.2.2.2 with h1 | h1
@@ -71,16 +74,75 @@ theorem no_aba (c : Cfg) {s : State} (h : Reach c s) (t : Nat) (b : Bool) (h0 nx
   subst hb1
   exact ⟨r, hhd ▸ e1, hc1⟩
 
+/-- the mechanism under RCU: a node a popper holds (it loaded `head = h0` inside its read-side
+section) is never free nor being re-pushed while the popper still uses it -/
+theorem rcu_protects (c : Cfg) (wf : c.WF) {s : State} (h : Reach c s) (t : Nat) (b : Bool) (h0 nx : Nat)
+    (hp : s.pc t = .popCas b h0 nx ∨ s.pc t = .popSync b h0) :
+    s.nst h0 ≠ .free ∧ (∀ u, s.nst h0 ≠ .own u) ∧ (c.scheme = .rcu → s.cs t ≠ 0) ∧
+    (∀ τ, s.nst h0 = .retired τ → s.cs t < τ) := by
+  have I := inv_reach c wf h
+  unfold Cfg.WF at wf
+  rcases hp with hp | hp
+  · have := I.popR3 t b h0 nx hp
+    simp only [Prot, ProtP, hasRight] at this
+    grind
+  · have := I.popR2 t b h0 hp
+    simp only [Prot, ProtP, hasRight] at this
+    grind
+
+/-- the grace-period guard (GpSpec): a grace period ends only when every open read-side section –
+of any thread – began after the grace period started -/
+theorem gp_end_spec (c : Cfg) (wf : c.WF) {s s' : State} (h : Reach c s)
+    (st : step c s .gpEnd = some s') :
+    ∃ a, s.gpCur = some a ∧ s'.gpDone = max s.gpDone a ∧ ∀ t, s.cs t ≠ 0 → a ≤ s.cs t := by
+  have I := inv_reach c wf h
+  simp only [step] at st
+  split at st
+  · next a ha =>
+    split at st
+    · next g =>
+      simp only [Option.some.injEq] at st; subst st
+      exact ⟨a, ha, rfl, fun t ht => g t (I.cs_lt t ht).2.1 ht⟩
+    · simp at st
+  · simp at st
+
+/-- **recycling only after a grace period**: a node handed out (retired) at time `τ` cannot be
+recycled (freed, re-initialised, re-pushed) while a read-side section that began before `τ` is
+still open -/
+theorem no_recycle_in_section (c : Cfg) (wf : c.WF) {s : State} (h : Reach c s) (t n τ : Nat)
+    (hcs : s.cs t ≠ 0) (hn : s.nst n = .retired τ) (hlt : s.cs t < τ) :
+    step c s (.reclaim n) = none ∧ ∀ u, step c s (.pushBegin u n) = none := by
+  have I := inv_reach c wf h
+  have := (I.cs_lt t hcs).2.2
+  refine ⟨?_, ?_⟩
+  · simp only [step, hn]
+    split
+    · omega
+    · rfl
+  · intro u; simp [step, hn]
+
+/-- a successful pop hands the node to its popper: recycled at once under mutex / single
+consumer, retired with the current time stamp under RCU -/
+theorem pop_release (c : Cfg) {s s' : State} (t : Nat) (b : Bool) (h0 nx : Nat)
+    (hp : s.pc t = .popCas b h0 nx) (hhd : s.head = h0) (st : step c s (.popCas t) = some s') :
+    s'.nst h0 = (if c.scheme = .rcu then .retired s.clock else .free) ∧ s.clock < s'.clock := by
+  simp only [step, hp] at st
+  split at st
+  · simp only [hhd, if_true, Option.some.injEq] at st
+    subst st
+    simp [released]
+  · simp at st
+
 /-- a successful pop returns the abstract top; `CDS_WFS_STATE_LAST` is reported iff the stack
 became empty -/
-theorem pop_result (c : Cfg) {s s' : State} (h : Reach c s) (t : Nat) (b : Bool) (h0 nx : Nat)
+theorem pop_result (c : Cfg) (wf : c.WF) {s s' : State} (h : Reach c s) (t : Nat) (b : Bool) (h0 nx : Nat)
     (hp : s.pc t = .popCas b h0 nx) (hhd : s.head = h0) (st : step c s (.popCas t) = some s') :
     s.abs = h0 :: s'.abs ∧ s'.ret t = .node h0 (nx == END) ∧ ((nx == END) = true ↔ s'.abs = []) ∧
     s'.head = nx := by
   simp only [step, hp] at st
   split at st
   · next hb =>
-    obtain ⟨l, e1, hc1⟩ := no_aba c h t b h0 nx hp hb hhd
+    obtain ⟨l, e1, hc1⟩ := no_aba c wf h t b h0 nx hp hb hhd
     simp only [hhd, if_true, Option.some.injEq] at st
     subst st
     simp only [e1, List.tail_cons, upd_same, true_and]
@@ -90,13 +152,13 @@ theorem pop_result (c : Cfg) {s s' : State} (h : Reach c s) (t : Nat) (b : Bool)
 
 /-- **pop_all**: one `xchg`; the returned head is the start of a chain whose logical content is
 exactly the abstract stack at that instant, top first; the stack is empty afterwards -/
-theorem popAll_result (c : Cfg) {s s' : State} (h : Reach c s) (t : Nat)
+theorem popAll_result (c : Cfg) (wf : c.WF) {s s' : State} (h : Reach c s) (t : Nat)
     (st : step c s (.popAll t) = some s') :
     s'.head = END ∧ s'.abs = [] ∧ s'.priv t = s.abs ∧ s'.cur t = s.head ∧
     Chain s' (s'.cur t) s.abs ∧
     s'.ret t = (if s.abs = [] then .null else .head s.head) := by
-  have I' := inv_reach c (Reach.step h st)
-  have hn := head_end_iff_nil c h
+  have I' := inv_reach c wf (Reach.step h st)
+  have hn := head_end_iff_nil c wf h
   have hpc := I'.pchain t
   simp only [step] at st
   split at st
@@ -110,12 +172,12 @@ theorem popAll_result (c : Cfg) {s s' : State} (h : Reach c s) (t : Nat)
 
 /-- **iteration is exact**: an iterator step that advances hands out the nodes of the popped
 list in order (the first one is `cds_wfs_first` = the returned head) -/
-theorem iter_exact (c : Cfg) {s s' : State} (h : Reach c s) (t : Nat) (b : Bool)
+theorem iter_exact (c : Cfg) (wf : c.WF) {s s' : State} (h : Reach c s) (t : Nat) (b : Bool)
     (st : step c s (.iterNext t b) = some s') (hadv : s'.cur t ≠ s.cur t) :
     ∃ r, s.priv t = s.cur t :: r ∧ s'.priv t = r ∧ Chain s' (s'.cur t) r ∧
       s'.ret t = (if r = [] then .null else .node (s'.cur t) false) := by
-  have I := inv_reach c h
-  have I' := inv_reach c (Reach.step h st)
+  have I := inv_reach c wf h
+  have I' := inv_reach c wf (Reach.step h st)
   have hpc' := I'.pchain t
   simp only [step] at st
   split at st
@@ -139,13 +201,13 @@ theorem iter_exact (c : Cfg) {s s' : State} (h : Reach c s) (t : Nat) (b : Bool)
 yet, a push of that node is in flight (its pusher is between its `xchg` and its store, or the
 store sits in the pusher's store buffer); the blocking variant keeps waiting (no progress, no
 wrong answer), the non-blocking variant returns `CDS_WFS_WOULDBLOCK` and keeps its position. -/
-theorem iter_incomplete (c : Cfg) {s : State} (h : Reach c s) (t : Nat)
+theorem iter_incomplete (c : Cfg) (wf : c.WF) {s : State} (h : Reach c s) (t : Nat)
     (hp : s.pc t = .idle) (hcur : s.cur t ≠ END) (hrd : rd s t (s.cur t) = 0) :
     (∃ u b, PendC s u (s.cur t) b) ∧
     step c s (.iterNext t true) = some s ∧
     ∃ s', step c s (.iterNext t false) = some s' ∧ s'.ret t = .wouldblock ∧
       s'.cur t = s.cur t ∧ s'.priv t = s.priv t ∧ s'.abs = s.abs := by
-  have I := inv_reach c h
+  have I := inv_reach c wf h
   refine ⟨?_, by simp [step, hp, hcur, hrd], { s with ret := upd s.ret t .wouldblock },
     by simp [step, hp, hcur, hrd], by simp, rfl, rfl, rfl⟩
   obtain ⟨b1, r, e1, hn1, hl1, hc1⟩ := chain_cons_inv (I.pchain t) hcur
@@ -160,17 +222,17 @@ theorem iter_incomplete (c : Cfg) {s : State} (h : Reach c s) (t : Nat)
 
 /-- same for pop: `___cds_wfs_node_sync_next` sees NULL only while a push of the top node is in
 flight; blocking pop waits, non-blocking pop returns WOULDBLOCK without touching the stack -/
-theorem pop_incomplete (c : Cfg) {s : State} (h : Reach c s) (t : Nat) (b : Bool) (h0 : Nat)
+theorem pop_incomplete (c : Cfg) (wf : c.WF) {s : State} (h : Reach c s) (t : Nat) (b : Bool) (h0 : Nat)
     (hp : s.pc t = .popSync b h0) (hrd : rd s t h0 = 0) :
     (∃ u o, PendC s u h0 o) ∧
     (b = true → step c s (.popSync t) = some s) ∧
     (b = false → ∃ s', step c s (.popSync t) = some s' ∧ s'.ret t = .wouldblock ∧ s'.pc t = .idle ∧
       s'.abs = s.abs ∧ s'.head = s.head) := by
-  have I := inv_reach c h
+  have I := inv_reach c wf h
   have hR := I.popR2 t b h0 hp
   refine ⟨?_, ?_, ?_⟩
-  · have hst := (I.abs_st h0).1 hR.2
-    -- h0 is in the abstract stack: it has a logical successor
+  · -- h0 is in the abstract stack or in a popped list: it has a logical successor;
+    -- or it was handed out: its `next` is set
     have : ∀ {hd l}, Chain s hd l → h0 ∈ l → ∃ b1, lnext s h0 b1 := by
       intro hd l hc
       induction hc with
@@ -181,7 +243,23 @@ theorem pop_incomplete (c : Cfg) {s : State} (h : Reach c s) (t : Nat) (b : Bool
         rcases hm with e | hm
         · subst e; exact ⟨_, hl⟩
         · exact ih hm
-    obtain ⟨b1, hl1⟩ := this I.chain hR.2
+    have hP := hR.2
+    simp only [Prot, ProtP] at hP
+    have hsucc : ∃ b1, lnext s h0 b1 := by
+      cases hst : s.nst h0 with
+      | free => exact absurd hst hP.2.1
+      | own u => exact absurd hst (hP.2.2.1 u)
+      | inStack => exact this I.chain ((I.abs_st h0).2 hst)
+      | limbo u => exact this (I.pchain u) ((I.priv_st u h0).2 hst)
+      | retired τ =>
+        exfalso
+        have hnz := I.retired_nx h0 τ hst
+        rcases rd_cases s t h0 with h1 | ⟨h1, _⟩
+        · rw [hrd] at h1
+          have := I.bufInit t _ h1
+          rw [hp] at this; simp at this
+        · rw [hrd] at h1; exact hnz h1.symm
+    obtain ⟨b1, hl1⟩ := hsucc
     rcases rd_cases s t h0 with h1 | ⟨h1, _⟩
     · rw [hrd] at h1
       have := I.bufInit t _ h1
@@ -197,10 +275,10 @@ theorem pop_incomplete (c : Cfg) {s : State} (h : Reach c s) (t : Nat) (b : Bool
 
 /-- push: the value returned ("stack was non-empty") is computed from the head value replaced
 by the `xchg`, which is `END` iff the abstract stack is empty at that instant -/
-theorem push_result (c : Cfg) {s s' : State} (h : Reach c s) (t n : Nat)
+theorem push_result (c : Cfg) (wf : c.WF) {s s' : State} (h : Reach c s) (t n : Nat)
     (hp : s.pc t = .pushX n) (st : step c s (.pushX t) = some s') :
     s'.abs = n :: s.abs ∧ s'.pc t = .pushSt n s.head ∧ ((s.head != END) = !s.abs.isEmpty) := by
-  have I := inv_reach c h
+  have I := inv_reach c wf h
   simp only [step, hp] at st
   split at st
   · simp only [Option.some.injEq] at st; subst st
@@ -214,9 +292,9 @@ theorem push_ret (c : Cfg) {s s' : State} (t n o : Nat)
   subst st
   simp
 
-theorem empty_result (c : Cfg) {s s' : State} (h : Reach c s) (t : Nat)
+theorem empty_result (c : Cfg) (wf : c.WF) {s s' : State} (h : Reach c s) (t : Nat)
     (st : step c s (.empty t) = some s') : s'.ret t = .flag s.abs.isEmpty ∧ s'.abs = s.abs := by
-  have I := inv_reach c h
+  have I := inv_reach c wf h
   simp only [step] at st
   split at st
   · simp only [Option.some.injEq] at st; subst st
@@ -224,10 +302,10 @@ theorem empty_result (c : Cfg) {s s' : State} (h : Reach c s) (t : Nat)
   · simp at st
 
 /-- an empty pop (returns NULL) happens only on an empty abstract stack -/
-theorem pop_null (c : Cfg) {s s' : State} (h : Reach c s) (t : Nat) (b : Bool)
+theorem pop_null (c : Cfg) (wf : c.WF) {s s' : State} (h : Reach c s) (t : Nat) (b : Bool)
     (hp : s.pc t = .popLd b) (hh : s.head = END) (st : step c s (.popLd t) = some s') :
     s.abs = [] ∧ s'.ret t = .null ∧ s'.abs = [] := by
-  have hn := (head_end_iff_nil c h).1 hh
+  have hn := (head_end_iff_nil c wf h).1 hh
   simp only [step, hp, hh, if_true, Option.some.injEq] at st
   subst st
   simp [hn]
